@@ -34,6 +34,22 @@ for i in range(n):
 """
 
 
+_FORK_MOD = {}
+
+
+def _forked_encrypt(es, kms, keys_dir, w, n):
+    """Runs in a forked child: the encrypt script module was imported by the PARENT (kept in _FORK_MOD)."""
+    from suit_generator.suit_encrypt_script_base import SuitDigestAlgorithms, SuitKWAlgorithms
+    mod = _FORK_MOD["mod"]
+    out = []
+    for i in range(n):
+        pt = b"worker %d firmware %d" % (w, i)
+        e = mod.suit_encryptor_factory()
+        payload, tag, info, digest, ln = e.encrypt_and_generate(pt, "fwenc", 7, keys_dir, SuitDigestAlgorithms("sha-256"), SuitKWAlgorithms("direct"), kms)
+        out.append((pt, info, tag + payload))
+    return out
+
+
 class History:
     def __init__(self, tr, key, label):
         self.tr, self.key = tr, key
@@ -66,6 +82,9 @@ def run(ctx: core.Check):
     mod = importlib.util.module_from_spec(spec)
     spec.loader.exec_module(mod)
     from suit_generator.suit_encrypt_script_base import SuitDigestAlgorithms, SuitKWAlgorithms
+    _FORK_MOD["mod"] = mod
+    # one encryption BEFORE any fork, so that the KMS module (and whatever it initialises on first use) is loaded in the parent
+    mod.suit_encryptor_factory().encrypt_and_generate(b"warm-up", "fwenc", 7, str(d / "keys"), SuitDigestAlgorithms("sha-256"), SuitKWAlgorithms("direct"), kms)
 
     n = 500 if ctx.quick else 25000
     tr = toolrun.Trace()
@@ -119,6 +138,18 @@ def run(ctx: core.Check):
         total += 1
         if i:
             ctx.nontriv(("cli", i))
+    # workers FORKED from this process after the library was loaded (multiprocessing's default on Linux): every child inherits
+    # whatever state the KMS keeps; each child encrypts a few times with the same key
+    import multiprocessing
+    h = History(tr, key, "forked-workers")
+    mp = multiprocessing.get_context("fork")
+    with mp.Pool(4) as pool:
+        res = pool.starmap(_forked_encrypt, [(es, kms, str(d / "keys"), w, 3) for w in range(8 if ctx.quick else 64)])
+    for rows in res:
+        for pt, info, content in rows:
+            h.add(pt, info, content)
+            total += 1
+            ctx.nontriv(("fork", total))
     # cross-process histories
     procs = 24 if ctx.quick else 2000
     per = 5
